@@ -10,7 +10,7 @@ PROOF_MODULE = "Nlmodel.Proofs.C07"
 PROOF_FILES = ["Nlmodel/Proofs/C07.lean", "Nlmodel/Proofs/Lemmas/Pratt.lean", "Nlmodel/Model/Parser.lean", "Nlmodel/Model/Printer.lean"]
 THEOREM_FILE = PROOF_FILES[0]
 LEVEL_TEXT = ("Lean theorems about the model parser (a mirror of parser.rs with the same decision points) and the specification printer: the parser's precedence table equals the documented one (complete table); op-assignment desugars to `a = a + (e)`; `anders als` nests to the right; redundant parentheses do not create nodes; the ROUND-TRIP theorem parse(print t) = t is PROVED (Pratt-loop lemma with explicit, linear fuel) for every expression tree over the 13 binary operators and atoms (identifiers, integer literals, booleans) of any shape and depth, at expression level in any non-continuing context and at program level with the fuel parse itself supplies; the first version of the theorem (binary operators over atoms, explicit linear fuel) is kept; the whole grammar follows below. The model parser is tied to parser.rs by comparing trees (canonical s-expressions, floats by bits) on every printed text, and the round trip itself is run against the real parser on the complete enumeration of all trees with up to three binary operators over every operator tuple (11 336 trees) plus random statement-level trees, each under several layouts. THE WHOLE GRAMMAR (C07_print_parse_whole_grammar, Lemmas/RoundTrip.lean): for EVERY program tree the parser can produce (RTF.WB: prefix operators, the 13 binary operators with a non-function left operand, assignment to names and indexed names, calls of names and of function literals named or not, indexing of names/list literals/string literals, als/anders, zolang, functie with parameters, list literals, blocks, stel/antwoord/stop/volgende, integer and string literals; float literals under RTF.FloatRT), of any size and depth, parseTokens(printProgram b) = b with the fuel parse supplies (mutual induction over expressions, argument lists, statements, blocks; fuel handled existentially with ParseMono/ParseStable: more fuel never changes an answer, and ParseFuel: the supplied fuel suffices); and at text level under any layout, C07_text_round_trip_whole_grammar.")
-LEVEL_NOTE = ("Trusted: Lean kernel; the round-trip theorem covers binary-operator expressions over atoms, at token level (C07_print_parse_expr/_program) and at TEXT level with any layout (C07_text_round_trip = C07 + C08_lex_render); the whole-grammar theorem's side condition on float literals (RTF.FloatRT: the literal's spelling reads back) IS a theorem for every finite non-negative non-NaN float (C07_float_literals_read_back, from the float text round trip of C14), i.e. for everything a number token can denote except +infinity written out with 309 digits, whose printed form `inf.0` is not a number token. Token spelling relies on C08.")
+LEVEL_NOTE = ("Trusted: Lean kernel; the round-trip theorem covers binary-operator expressions over atoms, at token level (C07_print_parse_expr/_program) and at TEXT level with any layout (C07_text_round_trip = C07 + C08_lex_render); the whole-grammar theorem's side condition on float literals (RTF.FloatRT: the literal's spelling reads back) IS a theorem for every finite non-negative non-NaN float (C07_float_literals_read_back, from the float text round trip of C14), i.e. for everything a number token can denote except +infinity written out with 309 digits, whose printed form `inf.0` is not a number token. C07_parser_range: every tree the parser produces (finite float literals) is in the range of the round trip, so C07_parse_print_parse holds for EVERY program that parses: printed canonically under any layout it parses to the same tree (spellability discharged for parsed trees), and C07_same_tree_iff_same_print. Token spelling relies on C08.")
 TECHNIQUE = "Lean 4 proof (Pratt-loop lemma, table equality) + print/parse round trip on the real parser"
 RULE = ("complete enumeration of binary-operator trees with 1..3 operators over all 13^n operator tuples (11 336 trees), each "
         "under the canonical layout and random layouts; random statement-level trees (depth 2-3) over the whole grammar range "
